@@ -154,6 +154,22 @@ func depth(n *node) int {
 	return d + 1
 }
 
+// message-or-empty helper
+func mismatch(a, b string) string {
+	if a == b {
+		return ""
+	}
+	return fmt.Sprintf("%s differs from %s", a, b)
+}
+
+// call nested in a multi-value return
+func weightOrErr(n *node) (int, error) {
+	if n == nil {
+		return 0, errors.New("nil node")
+	}
+	return weight(n), nil
+}
+
 // tail-call shape
 func lookupOrZero(m map[string]int, k string) (int, error) {
 	if k == "zero" {
@@ -252,6 +268,22 @@ func run(w *strings.Builder) error {
 			return fail(errors.New("too big"))
 		}
 	}
+	verify := func(k string) error {
+		if k == "" {
+			return errors.New("empty")
+		}
+		return nil
+	}
+	bail := func(err error) error {
+		count = -2
+		return fmt.Errorf("bail: %w", err)
+	}
+	if err := verify("k"); err != nil {
+		return bail(err)
+	}
+	if err := verify(""); err == nil {
+		return bail(errors.New("unexpected"))
+	}
 	pick := func(k string) (int, bool) {
 		v, ok := m[k]
 		return v, ok
@@ -268,12 +300,35 @@ func run(w *strings.Builder) error {
 		fmt.Fprintln(w, r, count)
 	}
 	fmt.Fprintln(w, count)
+	// helper calls nested in larger statements (hoisted when evaluated first)
+	var acc []int
+	for _, k := range tree.kids {
+		acc = append(acc, weight(k))
+	}
+	fmt.Fprintln(w, acc, note("n1")+weight(tree), weight(tree)+note("n2"))
+	if len(acc) > 0 && wanted(tree, false) {
+		fmt.Fprintln(w, "short-circuit kept")
+	}
+	var msgs []string
+	for _, pair := range [][2]string{{"x", "y"}, {"x", "x"}} {
+		if msg := mismatch(pair[0], pair[1]); msg != "" {
+			msgs = append(msgs, msg)
+		}
+	}
+	if n := weight(tree); n > 1 {
+		msgs = append(msgs, fmt.Sprint("heavy ", n))
+	} else {
+		msgs = append(msgs, "light")
+	}
+	fmt.Fprintln(w, msgs)
 	// range operand
 	for i, n := range names(tree) {
 		fmt.Fprintln(w, i, n)
 	}
 	// nested helpers, recursion left alone
 	fmt.Fprintln(w, total(tree), depth(tree))
+	wv, werr := weightOrErr(tree.kids[1])
+	fmt.Fprintln(w, wv, werr)
 	// not inlined
 	err := guarded(func() { panic("boom") })
 	fmt.Fprintln(w, err)
